@@ -6,6 +6,7 @@ package pebbles
 
 import (
 	"github.com/buildbuildio/pebbles/common"
+	"github.com/buildbuildio/pebbles/introspection"
 	"github.com/buildbuildio/pebbles/queryer"
 	"github.com/buildbuildio/pebbles/requests"
 	"github.com/vektah/gqlparser/v2/ast"
@@ -14,6 +15,7 @@ import (
 var _ = requests.Undecodable
 var _ = common.InternalServiceName
 var _ = queryer.QueryCalls
+var _ = introspection.IsIntrospection
 
 // Ghost view of the HTTP response: the last status written and how many times a
 // status line was written.
@@ -26,9 +28,6 @@ func LoadedDoc(schema *ast.Schema, query string) *ast.QueryDocument { panic("gho
 // OpNamed: the result of ast.OperationList.ForName.
 func OpNamed(ops ast.OperationList, name string) *ast.OperationDefinition { panic("ghost") }
 
-// IsIntrospection: the selection set contains __schema / __type fields (decided by
-// IntrospectionResolver.ResolveIntrospectionFields returning a non-nil map).
-func IsIntrospection(sel ast.SelectionSet) bool { panic("ghost") }
 
 // ValidQuery: the query text parses and validates against the schema (decided by
 // gqlparser.LoadQuery, which is outside the verified code).
@@ -115,23 +114,19 @@ func ValidQuery(schema *ast.Schema, query string) bool { panic("ghost") }
 //@ loop 1 invariant[nonnil] queryers != nil && fresh(queryers) && forallT(u, string, has(queryers, u) ==> queryers[u] != nil) && forallT(u, string, has(childQueryers, u) ==> childQueryers[u] != nil) && childQueryers != queryers
 //@ end
 
-//@ extern github.com/buildbuildio/pebbles/introspection (*IntrospectionResolver).ResolveIntrospectionFields
-//@ ensures (result != nil) == IsIntrospection(selectionSet)
-//@ modifies fresh
-//@ end
 
 //@ func (*Gateway).parseIntrospectionQuery
 //@ props C07 C13
-//@ requires g != nil && plan != nil && request != nil
+//@ requires g != nil && plan != nil && request != nil && g.schema != nil
 //@ ensures[fresh] result != nil ==> fresh(result)
 // (C06: a non-nil result means the operation is answered without any downstream request: that may only happen for an
 // operation that asks for __schema / __type, never for a mutation that merely selects __typename next to its fields)
 //@ ensures[data] result != nil ==> result.Data != nil @props C07 C13 C06
 // the root steps come in map iteration order: whether the operation is answered by the
 // gateway itself must not depend on where the internal step is in the list
-//@ ensures[order-free] (result != nil) == exists(k, 0, len(plan.RootSteps), plan.RootSteps[k].URL == common.InternalServiceName && IsIntrospection(plan.RootSteps[k].SelectionSet)) @props C13 C06
+//@ ensures[order-free] (result != nil) == exists(k, 0, len(plan.RootSteps), plan.RootSteps[k].URL == common.InternalServiceName && introspection.IsIntrospection(plan.RootSteps[k].SelectionSet)) @props C13 C06
 //@ modifies-assumed fresh
-//@ loop 0 invariant[none-yet] forall(k, 0, it, !(plan.RootSteps[k].URL == common.InternalServiceName && IsIntrospection(plan.RootSteps[k].SelectionSet)))
+//@ loop 0 invariant[none-yet] forall(k, 0, it, !(plan.RootSteps[k].URL == common.InternalServiceName && introspection.IsIntrospection(plan.RootSteps[k].SelectionSet)))
 //@ end
 
 //@ func emitError
